@@ -1,6 +1,7 @@
 // Engine `st_hist` (C01, C03, C04): plan generators and the dispatcher that runs one plan on every Simplex_tree option set
 // and compares the cross-configuration observations (e.g. the filtration order) between them.
 #include "st_common.h"
+#include <map>
 
 namespace sth { std::vector<Config>& configs() { static std::vector<Config> c; return c; } }
 
@@ -54,6 +55,7 @@ sim::Plan gen_history(const std::string& prop, uint64_t subseed, const sim::Tier
     } else if (k < w_build + w_bulk + w_erase + w_scr) {
       if (rng.chance(3, 4)) p.add(3, "scramble", {(long)rng.below(1 << 30), (long)rng.below(4)}); else p.add(3, "reset_filt", {(long)rng.below(13), (long)rng.below(4)});
     } else p.add(3, "extend");
+    if (c03 && rng.chance(1, 10)) p.add(4, "cubical", {(long)rng.below(1 << 30)});
     if (rng.below(audit_every) == 0) {
       long flags = (lazy_dim ? (rng.chance(1, 6) ? 1 : 0) : 1) | ((c03 && rng.chance(2, 3)) ? 2 : 0) | (rng.chance(1, 3) ? 4 : 0);
       p.add(4, "audit", {(long)rng.below(1 << 30), flags});
@@ -105,12 +107,11 @@ void execute(const sim::Plan& p, sim::Run& r) {
     all.emplace_back(c.name, o);
   }
   // identical under every storage option set and build: observations with the same tag must agree
-  for (size_t i = 1; i < all.size(); ++i) {
-    auto& a = all[0].second.items; auto& b = all[i].second.items;
-    if (a.empty() || b.empty()) continue;  // configurations without stored values produce no order
-    if (a.size() != b.size()) r.fail("eq-config", "configurations " + all[0].first + " and " + all[i].first + " produced a different number of observations");
-    for (size_t k = 0; k < a.size(); ++k)
-      if (a[k] != b[k]) { r.opkind = "audit"; r.fail("order-det", "configurations " + all[0].first + " and " + all[i].first + " disagree on " + a[k].first + ": " + a[k].second + " vs " + b[k].second); }
+  // identical under every storage option set and build: observations with the same tag must agree wherever both are present
+  std::map<std::string, std::pair<std::string, std::string>> first;  // tag -> (config, value)
+  for (auto& c : all) for (auto& it : c.second.items) {
+    auto ins = first.emplace(it.first, std::make_pair(c.first, it.second));
+    if (!ins.second && ins.first->second.second != it.second) { r.opkind = "audit"; r.fail("order-det", "configurations " + ins.first->second.first + " and " + c.first + " disagree on " + it.first + ": " + ins.first->second.second + " vs " + it.second); }
   }
 }
 
